@@ -95,10 +95,11 @@ class EnumV:
 
 
 class RefV:
-    __slots__ = ("v",)
+    __slots__ = ("v", "slot")
 
-    def __init__(self, v):
+    def __init__(self, v, slot=None):
         self.v = v
+        self.slot = slot   # name of the caller's local this reference was taken from (for &mut write-back)
 
     def __repr__(self):
         return "&%r" % (self.v,)
@@ -187,7 +188,12 @@ class ItemV:
 
     def __init__(self, kind, f):
         self.kind = kind
-        self.f = dict(f) if isinstance(f, dict) else {i: v for i, v in enumerate(f)}
+        if isinstance(f, dict):
+            self.f = dict(f)
+        elif isinstance(f, (list, tuple)):
+            self.f = {i: v for i, v in enumerate(f)}
+        else:
+            self.f = f   # a lazily initialised symbolic payload (execmir.SymV)
 
     def __repr__(self):
         return "%s%r" % (self.kind, self.f)
